@@ -26,14 +26,17 @@ def blen : Str → Nat
 /-- `haystack.starts_with(p)` -/
 def pre (p s : Str) : Bool := p.isPrefixOf s
 
+/-- Scanner of `str::replace(p :: ps, w)`: `skip` chars of a matched occurrence are still to be passed over.
+(Structural recursion with a skip counter so that the kernel can evaluate it.) -/
+def replaceAux (p : Char) (ps w : Str) : Nat → Str → Str
+  | _, [] => []
+  | skip + 1, _ :: cs => replaceAux p ps w skip cs
+  | 0, c :: cs =>
+    if c = p ∧ pre ps cs = true then w ++ replaceAux p ps w ps.length cs
+    else c :: replaceAux p ps w 0 cs
+
 /-- `str::replace(p :: ps, w)` for the non-empty pattern `p :: ps`: leftmost non-overlapping occurrences. -/
-def replaceAll1 (p : Char) (ps w : Str) : Str → Str
-  | [] => []
-  | c :: cs =>
-    if c = p ∧ pre ps cs = true then w ++ replaceAll1 p ps w (cs.drop ps.length)
-    else c :: replaceAll1 p ps w cs
-termination_by s => s.length
-decreasing_by all_goals simp_wf <;> omega
+def replaceAll1 (p : Char) (ps w : Str) (s : Str) : Str := replaceAux p ps w 0 s
 
 /-- `str::replace(pat, w)`; the empty pattern matches at every char boundary. -/
 def strReplace (pat w s : Str) : Str :=
@@ -162,17 +165,19 @@ def longest : List Str → Str → Option Str
     | some b => if pre n s && decide (blen b < blen n) then some n else some b
     | none => if pre n s then some n else none
 
-/-- One left-to-right pass: at an `@`, the longest known name that follows is a reference. -/
-def parse (names : List Str) : Str → List Item
-  | [] => []
-  | c :: cs =>
+/-- Scanner of `parse` (`skip` chars of a recognised name are still to be passed over). -/
+def parseAux (names : List Str) : Nat → Str → List Item
+  | _, [] => []
+  | skip + 1, _ :: cs => parseAux names skip cs
+  | 0, c :: cs =>
     if c = '@' then
       match longest names cs with
-      | some n => .ref n :: parse names (cs.drop n.length)
-      | none => .stray :: parse names cs
-    else .lit c :: parse names cs
-termination_by s => s.length
-decreasing_by all_goals simp_wf <;> omega
+      | some n => .ref n :: parseAux names n.length cs
+      | none => .stray :: parseAux names 0 cs
+    else .lit c :: parseAux names 0 cs
+
+/-- One left-to-right pass: at an `@`, the longest known name that follows is a reference. -/
+def parse (names : List Str) (t : Str) : List Item := parseAux names 0 t
 
 /-- Fill the references whose name has a value (the first entry of that name). -/
 def fill (vs : List (Str × Str)) : Item → Item
